@@ -18,7 +18,7 @@ from ..interp import FuncRef, Interp, Native, NativeMethod, Obj, PyRaise, Incomp
 from ..model import AnalysisError, Model
 
 PRE = "pregex.core.pre"
-TEXT = "abcdefghijklmnopqrst"          # the file's content (20 distinct characters)
+TEXT = "abcde\nfghij\nklmnopqrst"      # the file's content: three lines, distinct characters
 PATH = "/P/A/T/H/0123456789.TXT"        # the path: disjoint alphabet
 PAT = "<pattern-text>"
 RE_FLAGS = re.MULTILINE | re.DOTALL
@@ -89,6 +89,55 @@ class AbsMatch(Native):
         return f"<match {self.s}:{self.e} {self.grps}>"
 
 
+class AbsFile(Native):
+    """What open(<path witness>) returns: the text witness, readable as a whole or line by line."""
+
+    def __init__(self, text):
+        self.text = text
+        self.closed = False
+        self.pos = 0
+
+    def sa_enter(self, interp):
+        return self
+
+    def sa_exit(self, interp):
+        self.closed = True
+
+    def _rest(self):
+        r = self.text[self.pos:]
+        return r
+
+    def sa_getattr(self, interp, name):
+        if name == "read":
+            def read(it, a, kw):
+                n = a[0] if a else -1
+                r = self._rest() if n is None or n < 0 else self._rest()[:n]
+                self.pos += len(r)
+                return r
+            return NativeMethod(read)
+        if name == "readlines":
+            def readlines(it, a, kw):
+                r = self._rest().splitlines(keepends=True)
+                self.pos = len(self.text)
+                return r
+            return NativeMethod(readlines)
+        if name == "readline":
+            def readline(it, a, kw):
+                ls = self._rest().splitlines(keepends=True)
+                r = ls[0] if ls else ""
+                self.pos += len(r)
+                return r
+            return NativeMethod(readline)
+        if name == "close":
+            return NativeMethod(lambda it, a, kw: self.sa_exit(it))
+        raise Incomplete(f"file.{name} not modelled")
+
+    def sa_iter(self, interp):
+        r = self._rest().splitlines(keepends=True)
+        self.pos = len(self.text)
+        return iter(r)
+
+
 class AbsPatternInfo(Native):
     """`match.re`: only the group table of the compiled pattern is exposed."""
 
@@ -129,17 +178,27 @@ class MatchHooks(PregexHooks):
         super().__init__(model)
         self.extract = model.method(PRE, "Pregex", "__extract_text")
         self.calls = []          # dicts
-        self.extracted = []      # arguments given to __extract_text
+        self.extracted = []      # files opened
+        self.opens = []          # bound arguments of every open()
         self.matches_for = matches_for or (lambda subject: [])
 
-    def intercept(self, interp, target, args, kwargs, node):
-        if target is self.extract:
-            src = args[-1] if args else kwargs.get("source")
-            self.extracted.append(src)
-            if src == PATH:
-                return TEXT
-            return f"<content-of:{src}>"
-        return super().intercept(interp, target, args, kwargs, node)
+    def open_file(self, interp, args, kwargs, node):
+        import inspect as _inspect
+        import builtins as _b
+        try:
+            ba = _inspect.signature(_b.open).bind(*args, **kwargs)
+        except TypeError as e:
+            raise PyRaise(TypeError, e.args)
+        b = dict(ba.arguments)
+        src = b.get("file")
+        self.extracted.append(src)
+        self.opens.append({"file": src, "mode": b.get("mode", "r"), "encoding": b.get("encoding"), "errors": b.get("errors"),
+                           "newline": b.get("newline")})
+        if src == PATH:
+            return AbsFile(TEXT)
+        if isinstance(src, str):
+            return AbsFile(f"<content-of:{src}>")
+        raise PyRaise(TypeError, ("open() argument",))
 
     def intercept_py(self, interp, f, args, kwargs, node):
         try:
